@@ -359,7 +359,7 @@ def coq_case(proj, obs, ast):
 
 # ------------------------------------------------------------------ the check
 def run(ctx):
-    ctx.prove(["Props/C19.vo", "Run/eval_C19.vo"])
+    ctx.prove(["Props/C19.vo", "Run/eval_C19.vo"], extra_props=["Compose_C19_C06"])   # + composition C19 => C06 => C04 (exposed names are the valid declarations, and resolve)
     import extractlib; extractlib.tables_tie(ctx, ['importTag'])   # literal data of the source re-proved equal to the models' (DESIGN 3.5)
     ctx.trusted_base += [
         "harness/unitrun op importseq (parse.PrimaryPackage called repeatedly in one process)",
